@@ -594,3 +594,129 @@ func elemOfReplayOrder(ctx *Ctx, v ssa.Value, d int) bool {
 	}
 	return false
 }
+
+// ruleC04ReplayMeta: the metadata counters rebuilt by recovery are those of the segment the replayed record lives in
+// (the segment table indexed by the record's physical segment id), not of some other ordering.
+func ruleC04ReplayMeta(r *Run, p *Program, rule string) {
+	f := p.Fn("(*pogreb.DB).recover")
+	if !r.anchor(rule, "(*pogreb.DB).recover", f != nil) {
+		return
+	}
+	r.fn(funcKey(f))
+	n := 0
+	for _, g := range deepFuncs(p, f) {
+		k := funcKey(g)
+		if k != funcKey(f) && !strings.Contains(k, "replay") && g.Parent() == nil {
+			// only recover itself and helpers extracted from it: the write path keeps its own counters
+			if !calledOnlyFrom(p, g, f) {
+				continue
+			}
+		}
+		instrsOf(g, func(in ssa.Instruction) {
+			st, ok := in.(*ssa.Store)
+			if !ok {
+				return
+			}
+			fn := fieldName(st.Addr)
+			if fn != "pogreb.segmentMeta.PutRecords" && fn != "pogreb.segmentMeta.DeleteRecords" && fn != "pogreb.segmentMeta.DeletedBytes" {
+				return
+			}
+			n++
+			// the meta pointer: load of (datalog.segments[record.segmentID]).meta
+			okv := false
+			fa, _ := st.Addr.(*ssa.FieldAddr)
+			if fa != nil {
+				for _, src := range sources(fa.X) {
+					ld, ok := src.(*ssa.UnOp)
+					if !ok {
+						continue
+					}
+					mfa, ok := ld.X.(*ssa.FieldAddr)
+					if !ok || fieldName(mfa) != "pogreb.segment.meta" {
+						continue
+					}
+					for _, s2 := range sources(mfa.X) {
+						l2, ok := s2.(*ssa.UnOp)
+						if !ok {
+							continue
+						}
+						ia, ok := l2.X.(*ssa.IndexAddr)
+						if !ok {
+							continue
+						}
+						if fieldName(ia.X) == "pogreb.datalog.segments" && isFieldLoadOfParam(ia.Index, "pogreb.record.segmentID") {
+							okv = true
+						}
+					}
+				}
+			}
+			r.check(okv, rule, funcKey(g)+":"+strings.TrimPrefix(fn, "pogreb.segmentMeta."), p.Pos(st.Pos()),
+				"the counter updated is that of datalog.segments[record.segmentID]", "recovery credits "+strings.TrimPrefix(fn, "pogreb.segmentMeta.")+" to a segment other than datalog.segments[record.segmentID] (e.g. indexing the sequence-ordered list with the physical id): after compaction reused an id a segment holding delete records comes out of recovery with DeleteRecords == 0, is later compacted alone, and the deleted key comes back")
+		})
+	}
+	r.universe(rule, n, 3)
+}
+
+// calledOnlyFrom reports whether every static call site of g is inside f.
+func calledOnlyFrom(p *Program, g, f *ssa.Function) bool {
+	any := false
+	only := true
+	for _, h := range p.ModuleFuncs("") {
+		instrsOf(h, func(in ssa.Instruction) {
+			if c, ok := in.(*ssa.Call); ok && c.Call.StaticCallee() == g {
+				any = true
+				if h != f {
+					only = false
+				}
+			}
+		})
+	}
+	return any && only
+}
+
+// ruleC04Rollover: when the log moves on from a full current segment it does so through swapSegment, which prefers an
+// existing unfilled segment (after a recovery the newest replayed segment is unfilled and must be the one written next).
+func ruleC04Rollover(r *Run, p *Program, rule string) {
+	f := p.Fn("(*pogreb.datalog).writeRecord")
+	if !r.anchor(rule, "(*pogreb.datalog).writeRecord", f != nil) {
+		return
+	}
+	r.fn(funcKey(f))
+	// every store to datalog.curSeg reachable from writeRecord happens inside swapSegment
+	all, _ := allNodes(p, f)
+	n := 0
+	for nd := range all.Reached {
+		st, ok := nd.In.(*ssa.Store)
+		if !ok || fieldName(st.Addr) != "pogreb.datalog.curSeg" {
+			continue
+		}
+		n++
+		in := false
+		for c := nd.Ctx; c != nil; c = c.Parent {
+			if funcKey(c.Fn) == "(*pogreb.datalog).swapSegment" {
+				in = true
+			}
+		}
+		r.check(in, rule, funcKey(nd.Ctx.Fn)+":curSeg-store", p.Pos(st.Pos()), "the current segment is replaced only by swapSegment (existing unfilled segment first, else a new one)", "the write path installs a new current segment without going through swapSegment: an existing unfilled segment (the newest one after a recovery) stays unsealed, Close persists two unfilled segments, the next session appends to the older one and a later recovery replays its newest writes first")
+	}
+	r.universe(rule, n, 2)
+	// swapSegment looks for an existing unfilled segment before creating one
+	if g := p.Fn("(*pogreb.datalog).swapSegment"); r.anchor(rule, "(*pogreb.datalog).swapSegment", g != nil) {
+		var creates []ssa.Instruction
+		instrsOf(g, func(in ssa.Instruction) {
+			if c, ok := in.(*ssa.Call); ok && (calleeKey(&c.Call) == "(*pogreb.datalog).nextWritableSegmentID" || calleeKey(&c.Call) == "(*pogreb.datalog).openSegment") {
+				creates = append(creates, c)
+			}
+		})
+		if r.anchor(rule, "segment creation in swapSegment", len(creates) > 0) {
+			// creation is reachable only after the scan of datalog.segments ended without finding an unfilled one
+			scan := false
+			instrsOf(g, func(in ssa.Instruction) {
+				if u, ok := in.(*ssa.UnOp); ok && isFieldLoad(u, "pogreb.segmentMeta.Full") && inCycle(u.Block()) {
+					scan = true
+				}
+			})
+			r.check(scan, rule, funcKey(g)+":prefers-unfilled", p.Pos(g.Pos()), "swapSegment scans the table for an unfilled segment before creating a new one", "swapSegment creates a new segment without first looking for an existing unfilled one")
+		}
+	}
+}
